@@ -1,4 +1,8 @@
-use crate::{emplacer::Emplacer, error::Error, utils::mem::check_align_and_min_size};
+use crate::{
+    emplacer::Emplacer,
+    error::Error,
+    utils::{floor_mul, mem::check_align_and_min_size},
+};
 use core::{
     mem::{align_of, size_of},
     ptr,
@@ -66,7 +70,8 @@ pub unsafe trait FlatValidate: FlatUnsized {
     /// Check that memory contents of `this` is valid for `Self`.
     fn validate(bytes: &[u8]) -> Result<(), Error> {
         check_align_and_min_size::<Self>(bytes)?;
-        unsafe { Self::validate_unchecked(bytes) }
+        // Only the bytes that the mapped value will actually cover are checked.
+        unsafe { Self::validate_unchecked(bytes.get_unchecked(..floor_mul(bytes.len(), Self::ALIGN))) }
     }
 
     fn from_bytes(bytes: &[u8]) -> Result<&Self, Error> {
